@@ -235,6 +235,14 @@ example : ∃ m, legacyMsgC [0xac] 1 0 exCtx = some (.msg m) := ⟨_, rfl⟩
 example : ∃ m, bip341MsgC exH 0 0 none none exCtx = .ok m := ⟨_, rfl⟩
 example : (scanInputs (fun _ => ⟨0, []⟩) exCtx.tx.ins false false).1 = true := by decide
 
+example : (scanInputs (fun _ => ⟨0, 0x51 :: 0x20 :: List.replicate 32 0⟩) exCtx.tx.ins false false).2 = true := by
+  decide
+example : ¬ (((0x82 : UInt32) &&& 0x80) = 0 ∨ (((0x82 : UInt32) &&& 0x1f) ≠ 3 ∧ ((0x82 : UInt32) &&& 0x1f) ≠ 2)) := by
+  decide
+example : ¬ (((0x83 : UInt32) &&& 0x80) ≠ 0x80 ∨ (((0x83 : UInt32) &&& 3) ≠ 3 ∧ ((0x83 : UInt32) &&& 3) ≠ 2)) := by
+  decide
+example : parses [0x51, 0xab, 0x02, 0x01, 0x02, 0xac] = true := by decide
+
 /-! ### pinning of regenerated facts (T2): a changed constant in /repo breaks these -/
 
 theorem pin_sighash_consts :
